@@ -137,6 +137,31 @@ pub enum SteelVal {
     Closure(Gc<ByteCodeLambda>),
 }
 
+/// ordering of the reduced SteelVal: the CALLEE CONTRACT of `PartialOrd for SteelVal` as proved in unit `num`
+/// (fixnum/fixnum exact; fixnum/flonum through the conversion to f64 - exact for |i| <= 2^53, the known finding beyond)
+impl PartialEq for SteelVal {
+    fn eq(&self, o: &Self) -> bool {
+        match (self, o) {
+            (SteelVal::IntV(a), SteelVal::IntV(b)) => a == b,
+            (SteelVal::NumV(a), SteelVal::NumV(b)) => a == b,
+            (SteelVal::BoolV(a), SteelVal::BoolV(b)) => a == b,
+            (SteelVal::Void, SteelVal::Void) => true,
+            _ => false,
+        }
+    }
+}
+impl PartialOrd for SteelVal {
+    fn partial_cmp(&self, o: &Self) -> Option<core::cmp::Ordering> {
+        match (self, o) {
+            (SteelVal::IntV(a), SteelVal::IntV(b)) => a.partial_cmp(b),
+            (SteelVal::NumV(a), SteelVal::NumV(b)) => a.partial_cmp(b),
+            (SteelVal::IntV(a), SteelVal::NumV(b)) => (*a as f64).partial_cmp(b),
+            (SteelVal::NumV(a), SteelVal::IntV(b)) => a.partial_cmp(&(*b as f64)),
+            _ => None,
+        }
+    }
+}
+
 /// exact 128-bit model of num-bigint, only what the VM fast paths use (see units/num/prelude.rs)
 #[derive(Clone, Copy, Debug, PartialEq, Eq)]
 pub struct BigInt(pub i128);
